@@ -45,7 +45,15 @@ fn checker() -> Checker<toml::value::Value> {
     Checker::new(CheckerConfig::default(), meta_std()).unwrap()
 }
 
-const TEMPLATES: [&str; 12] = [
+const TEMPLATES: [&str; 20] = [
+    "local t, i, x = {}, 1, 2\nt[i] = x\nx = t[i]\n",
+    "local a, c = {}, {}\na.b = c.d\nc.d = a.b\n",
+    "local t, i = {}, 1\nold(t[i], -1)\nprint(t[i].x == 0/0, t[i] ~= 0/0)\n",
+    "local t, i = {}, 1\nprint(t[i] == {}, { t[i] } ~= t)\n",
+    "depp(1, t[i])\ndepp(t.a.b, - 1)\n",
+    "local t = {}\nprint(type(t[1] == \"number\"))\nif t[1] then print(1) elseif t[1] then print(2) end\n",
+    "local t = {}\nif t[1] then print(t[1]) else print(t[1]) end\n",
+    "local f = function(a, b) return a end\nf(1, 2, f(3)[1])\n",
     "print(old)\n",
     "local v = oldv\nprint(v)\n",
     "old(1)\n",
@@ -199,6 +207,16 @@ fn pick_program(r: &mut Rng, fx: &[String]) -> (String, &'static str) {
     }
 }
 
+/// script variables that share a name with a library global (C14: the name must not matter)
+const LIBNAMED: [&str; 6] = [
+    "local math = {}\nx, math.y = 1, 2\nprint(math)\n",
+    "local function f(table)\n  y, table.z = 1, 2\n  return table\nend\nprint(f)\n",
+    "local os = {}\n_G.q, os.clock = 1, 2\nprint(os)\n",
+    "local string = 1\nq, string = 2, 3\nprint(string)\n",
+    "local table = {}\ntable.insert, table.foo = 1, 2\nprint(table.getn(table), table.zzz)\n",
+    "local function g(math, os)\n  print(math.floor(1, 2, 3), os.nope, math.pi)\n  math.pi, os.x = 1, 2\nend\nprint(g)\n",
+];
+
 const RESERVED: [&str; 12] = ["self", "_G", "_", "type", "typeof", "require", "game", "script", "workspace", "plugin", "shared", "_ENV"];
 
 pub fn generate_c14(seed: u64, n: usize, _thorough: bool) -> Cases {
@@ -210,7 +228,7 @@ pub fn generate_c14(seed: u64, n: usize, _thorough: bool) -> Cases {
     let in_lib = |name: &str| lib.globals.keys().any(|k| k.split('.').any(|seg| seg == name));
     for i in 0..n {
         let mut r = rng.fork(i as u64);
-        let (src, origin) = pick_program(&mut r, &fx);
+        let (src, origin) = if r.chance(1, 10) { ((*r.pick(&LIBNAMED)).to_string(), "library-named") } else { pick_program(&mut r, &fx) };
         let (ast, ds) = match lint(&ck, &src) { Some(x) => x, None => continue };
         let toks = var_tokens(&ast);
         // script-introduced names: declared as a variable somewhere (scope analysis), not reserved / library / ignored
@@ -218,7 +236,14 @@ pub fn generate_c14(seed: u64, n: usize, _thorough: bool) -> Cases {
         let mut names: Vec<String> = ctx.scope_manager.variables.iter().map(|(_, v)| v.name.clone()).collect();
         names.sort();
         names.dedup();
-        names.retain(|nm| !RESERVED.contains(&nm.as_str()) && !in_lib(nm) && !nm.starts_with('_') && nm != "..."
+        // a library-named script variable is eligible only if every variable of that name is read somewhere
+        // (an unused one is the known class C02-K8: unused_variable stays silent on library names)
+        let read_somewhere = |nm: &str| {
+            ctx.scope_manager.variables.iter().filter(|(_, v)| v.name == nm).all(|(_, v)| {
+                v.references.iter().any(|rid| ctx.scope_manager.references.get(*rid).map(|rf| rf.read).unwrap_or(false))
+            })
+        };
+        names.retain(|nm| !RESERVED.contains(&nm.as_str()) && (!in_lib(nm) || (origin == "library-named" && read_somewhere(nm))) && !nm.starts_with('_') && nm != "..."
             && !src.contains(&format!("\"{nm}\"")) && !src.contains(&format!("'{nm}'")));
         if names.is_empty() {
             continue;
@@ -267,7 +292,11 @@ pub fn generate_c13(seed: u64, n: usize, _thorough: bool) -> Cases {
     let fx = fixtures();
     // systematic: every template x every token x {space, block comment} after the token
     let ck_roblox: Checker<toml::value::Value> = Checker::new(CheckerConfig::default(), StandardLibrary::roblox_base()).unwrap();
-    const ROBLOX_TEMPLATES: [&str; 6] = [
+    const ROBLOX_TEMPLATES: [&str; 10] = [
+        "local u = UDim2.new(-1, 0, -1, 0)\nprint(u)\n",
+        "local c = Color3.new(-1, 2.5, t[1])\nprint(c)\n",
+        "local u = UDim2.new(0, -5, 0, (5))\nprint(u)\n",
+        "local u = UDim2.new(-0.5, 0)\nprint(u)\n",
         "local c = Color3.new(255, 0, 0)\nprint(c)\n",
         "local u = UDim2.new(1, 0, 1, 0)\nprint(u)\n",
         "local u = UDim2.new(0, 5, 0, 5)\nprint(u)\n",
